@@ -371,6 +371,8 @@ def _lin_search(ops, init, maxmem, final):
         if kind == "update":
             if res[0] == "applied" and res[1] == 1:
                 return [o["op"][2]]
+            if res[0] == "memerr":               # refusal is legitimate only for contents beyond the limit
+                return [reg] if len(o["op"][2]) // 2 > maxmem else []
             return [reg]                         # reported failure: no effect
         return [reg]                             # unload
 
@@ -694,6 +696,19 @@ def core_scenarios():
         ("rewrite-resident:update-a||get-c", S1([[["update", "aa", b"xyz".hex(), 0]], [["get", "cc"]]],
                                                 max=5, files={"aa": b"AA".hex(), "bb": b"BBB".hex(), "cc": b"CCC".hex()},
                                                 setup=[["get", "aa"], ["get", "bb"]])),
+        # exact fill: sizes chosen so that usage + size == max_memory exactly (boundary of recover_memory)
+        ("exact-fill:update-a(2->3)||get-c", S1([[["update", "aa", b"xyz".hex(), 0]], [["get", "cc"]]],
+                                                max=6, files={"aa": b"AA".hex(), "bb": b"BBB".hex(), "cc": b"CCCC".hex()},
+                                                setup=[["get", "aa"], ["get", "bb"]])),
+        ("exact-fill:get-c;get-a||update-b", S1([[["get", "cc"], ["get", "aa"]], [["update", "bb", b"wxyz".hex(), 1], ["get", "cc"]]],
+                                                max=6, files={"aa": b"AA".hex(), "bb": b"BBB".hex(), "cc": b"CCCC".hex()},
+                                                setup=[["get", "aa"]])),
+        # oversized updates (max+1 and 2*max bytes): refused with MemoryError, no effect, later calls work
+        ("oversize:update-big;get||update;get", S1([[["update", "f", b"12345".hex(), 0], ["get", "f"]],
+                                                   [["update", "f", b"ab".hex(), 0], ["get", "f"]]], max=4)),
+        ("oversize:update-2max||get;update-big", S1([[["update", "f", b"12345678".hex(), 1]],
+                                                    [["get", "f"], ["update", "f", b"54321".hex(), 0]]], max=4,
+                                                   setup=[["get", "f"]])),
         # working set rotating through three files that do not fit together, one of them touched twice
         ("rotate3:get-a||get-b", S1([[["get", "aa"]], [["get", "bb"]]],
                                     max=6, files={"aa": b"AA".hex(), "bb": b"BBB".hex(), "cc": b"CCC".hex()},
@@ -747,6 +762,8 @@ def random_scenario(rng, nthreads=None):
             uid[0] += 1
             ln = rng.choice([1, 2, 3, 4, 6])
             ln = min(ln, maxmem)
+            if maxmem < 64 and rng.random() < 0.12:
+                ln = rng.choice([maxmem + 1, 2 * maxmem])      # must be refused with MemoryError
             data = (chr(ord("a") + uid[0]) * ln).encode().hex()
             return ["update", n, data, 1 if rng.random() < 0.25 else 0]
         return ["unload", n]
